@@ -78,6 +78,12 @@ def kc (x : Ctx F) (multiplier : Num F) : PyM (Val F) := do
   return sdict [("lower", sc (e.sub (multiplier.mul a))), ("band", ← Val.toScalar ema),
                 ("upper", sc (e.add (multiplier.mul a)))]
 
+/-- Python `v == 1` for a reading (`None == 1` is `False`, `True == 1` is `True`) -/
+def _root_.Hex.Val.isIntOne : Val F → Bool
+  | .s (.num n) => n.eq (.int 1)
+  | .s (.bool b) => b
+  | _ => false
+
 /-- Supertrend -/
 def supertrend (ops : Ops F) (x : Ctx F) (multiplier : Num F) : PyM (Val F × List (Candle F)) := do
   let atr ← x.reading (x.name ++ "_atr")
@@ -95,8 +101,15 @@ def supertrend (ops : Ops F) (x : Ctx F) (multiplier : Num F) : PyM (Val F × Li
     let close ← x.num "close"
     let pu ← x.prevNum dUpper
     let pl ← x.prevNum dLower
-    if close.gt pu then direction := .int 1
-    else if close.lt pl then direction := .int (-1)
+    -- (repaired code) the previous direction is read first; when the stored bands have crossed and the close is
+    -- above the idle band AND below the active one, the break of the ACTIVE band decides
+    let pd ← x.prevReading (x.name ++ ".direction")
+    let above := close.gt pu
+    let below := close.lt pl
+    if above && below then
+      direction := if pd.isIntOne then .int (-1) else .int 1
+    else if above then direction := .int 1
+    else if below then direction := .int (-1)
     else
       direction ← x.prevNum (x.name ++ ".direction")
       if direction.eq (.int 1) && lower.lt pl then lower := pl
